@@ -66,9 +66,7 @@ Theorem whole_content_when_absent_or_malformed : forall (content ctype boundary 
   (match range with None => True | Some h => parse_range_header h = None end) ->
   serve content ctype boundary false range = mkR 200 None (to_dec (lenN content)) (Some ctype) content /\
   serve content ctype boundary true range = mkR 200 None (to_dec (lenN content)) (Some ctype) [].
-Proof.
-  intros content ctype boundary range H. unfold serve, render. destruct range as [h|]; [rewrite H|]; split; reflexivity.
-Qed.
+Proof. exact whole_content. Qed.
 Print Assumptions whole_content_when_absent_or_malformed.
 
 (** what the header parser accepts is a non-empty set of well-formed specs (the hypothesis of the theorems above) *)
